@@ -9,7 +9,7 @@ CHECK = dict(
     ],
     units=[
         dict(name="profiledb", dir="internal/profiledb", src="C14/profiledb", runs=[
-            dict(name="statemachine", run="^TestVerifC14StateMachine$", quick=3000, thorough=150000, shards_thorough=10),
+            dict(name="statemachine", run="^TestVerifC14StateMachine$", quick=3000, thorough=3000000, shards_thorough=12),
         ]),
     ],
 )
